@@ -17,6 +17,7 @@ package lib
 //	D<k>:<hex>  send on k (one write; writes are separated so that each is one read)
 //	P<k>:<hex>  probe: send a valid frame on k and wait for its answer / the server's close / silence
 //	F<k>        close k (FIN)        R<k>  reset k (SO_LINGER 0)
+//	W           wait 60 ms (teardown of a connection that was just closed)
 //	A:<hex>     accept check: a NEW connection, send, wait for the answer, close  -> a=<hex>
 //
 // answer: ok alive=<0|1> g=... k<k>=<closed|open:<replies>|quiet:<replies>|gone> ... a=...
@@ -532,6 +533,8 @@ func c10ContainOnce(kind string, a []string) (result string, suspect bool) {
 			}
 			c.c.Write(data)
 			time.Sleep(300 * time.Microsecond)
+		case head == "W":
+			time.Sleep(60 * time.Millisecond) // let the server finish the teardown of a connection just closed
 		case head == "A":
 			c, err := c10Dial(child.Addr)
 			if err != nil {
